@@ -3,11 +3,11 @@ package main
 // C16 — data anchors / attestations / registrations are permanent.
 
 import (
-	"sort"
-	"regexp"
 	"fmt"
 	"go/token"
 	"go/types"
+	"regexp"
+	"sort"
 	"strings"
 
 	"golang.org/x/tools/go/ssa"
